@@ -22,6 +22,9 @@ func init() {
 	reg.Register("c07.convert", "C07", convert)
 	reg.Register("c07.hostile", "C07", hostile)
 	reg.Register("c07.envelope", "C07", envelope)
+	reg.Register("c07.keyobj", "C07", keyobj)
+	reg.Register("c07.mixed", "C07", mixed)
+	reg.Register("c07.curves", "C07", curves)
 }
 
 func selfTest(x *mon.Ctx) {
@@ -34,10 +37,19 @@ func selfTest(x *mon.Ctx) {
 func isSM2(cv enc.Curve) bool { return cv == enc.SM2 }
 
 func cvName(cv enc.Curve) string {
-	if isSM2(cv) {
+	switch cv {
+	case enc.SM2:
 		return "sm2"
+	case enc.P256:
+		return "p256"
+	case enc.P224:
+		return "p224"
+	case enc.P384:
+		return "p384"
+	case enc.P521:
+		return "p521"
 	}
-	return "p256"
+	return cv.Name()
 }
 
 // keyPair is one key pair known to the reference (d, P) and to the library (priv).
@@ -54,7 +66,7 @@ func libCurve(cv enc.Curve) elliptic.Curve {
 	if isSM2(cv) {
 		return sm2.P256()
 	}
-	return elliptic.P256()
+	return enc.Elliptic(cv)
 }
 
 func newKey(cv enc.Curve, d *big.Int) *keyPair {
@@ -84,10 +96,13 @@ var (
 func hexInt(s string) *big.Int { v, _ := new(big.Int).SetString(s, 16); return v }
 
 func d0(cv enc.Curve) *big.Int {
-	if isSM2(cv) {
+	switch cv {
+	case enc.SM2:
 		return d0SM2
+	case enc.P256:
+		return d0P256
 	}
-	return d0P256
+	return new(big.Int).Mod(d0P256, cv.N())
 }
 
 // special ephemeral scalars (small integers), per curve:
@@ -112,6 +127,9 @@ type encVariant struct {
 	layout enc.Layout
 	forms  []enc.Form // C1 forms that satisfy the request (plain layouts)
 	call   func(r io.Reader, pub *ecdsa.PublicKey, m []byte) ([]byte, error)
+	// mkOpts builds the option object of the variant (nil: the variant has none of its own). call makes a
+	// fresh one every time; workloads about histories keep one and pass it to sm2.Encrypt many times.
+	mkOpts func() *sm2.EncrypterOpts
 }
 
 func plainEnc(name string, o enc.Order, mode string) encVariant {
@@ -124,22 +142,18 @@ func plainEnc(name string, o enc.Order, mode string) encVariant {
 	switch mode {
 	case "U":
 		v.forms = []enc.Form{enc.Uncompressed}
-		v.call = func(r io.Reader, pub *ecdsa.PublicKey, m []byte) ([]byte, error) {
-			return sm2.Encrypt(r, pub, m, sm2.NewPlainEncrypterOpts(sm2.MarshalUncompressed, so))
-		}
+		v.mkOpts = func() *sm2.EncrypterOpts { return sm2.NewPlainEncrypterOpts(sm2.MarshalUncompressed, so) }
 	case "C":
 		v.forms = []enc.Form{enc.Compressed}
-		v.call = func(r io.Reader, pub *ecdsa.PublicKey, m []byte) ([]byte, error) {
-			return sm2.Encrypt(r, pub, m, sm2.NewPlainEncrypterOpts(sm2.MarshalCompressed, so))
-		}
+		v.mkOpts = func() *sm2.EncrypterOpts { return sm2.NewPlainEncrypterOpts(sm2.MarshalCompressed, so) }
 	case "H":
 		// the property names compressed and uncompressed C1 only; a library that answers a
 		// hybrid request with an uncompressed point (the SM2-curve path does) is within it
 		v.forms = []enc.Form{enc.Hybrid, enc.Uncompressed}
-		v.call = func(r io.Reader, pub *ecdsa.PublicKey, m []byte) ([]byte, error) {
-			return sm2.Encrypt(r, pub, m, sm2.NewPlainEncrypterOpts(sm2.MarshalHybrid, so))
-		}
+		v.mkOpts = func() *sm2.EncrypterOpts { return sm2.NewPlainEncrypterOpts(sm2.MarshalHybrid, so) }
 	}
+	mk := v.mkOpts
+	v.call = func(r io.Reader, pub *ecdsa.PublicKey, m []byte) ([]byte, error) { return sm2.Encrypt(r, pub, m, mk()) }
 	return v
 }
 
@@ -166,6 +180,8 @@ type decVariant struct {
 	name     string
 	demanded []enc.Layout
 	call     func(priv *sm2.PrivateKey, ct []byte) ([]byte, error)
+	// mkOpts: the option object of the variant, for workloads that keep one (see encVariant.mkOpts)
+	mkOpts func() *sm2.DecrypterOpts
 }
 
 // decRand is handed to PrivateKey.Decrypt as its io.Reader argument (the scheme is
@@ -174,19 +190,22 @@ var decRand = mon.NewRand(0, "c07.decrypt-reader")
 
 var decVariants = []decVariant{
 	{"sm2.Decrypt", []enc.Layout{enc.PlainC1C3C2},
-		func(p *sm2.PrivateKey, ct []byte) ([]byte, error) { return sm2.Decrypt(p, ct) }},
+		func(p *sm2.PrivateKey, ct []byte) ([]byte, error) { return sm2.Decrypt(p, ct) }, nil},
 	{"PrivateKey.Decrypt/nil", []enc.Layout{enc.PlainC1C3C2},
-		func(p *sm2.PrivateKey, ct []byte) ([]byte, error) { return p.Decrypt(decRand, ct, nil) }},
+		func(p *sm2.PrivateKey, ct []byte) ([]byte, error) { return p.Decrypt(decRand, ct, nil) }, nil},
 	{"PrivateKey.Decrypt/plain-C1C3C2", []enc.Layout{enc.PlainC1C3C2},
 		func(p *sm2.PrivateKey, ct []byte) ([]byte, error) {
 			return p.Decrypt(decRand, ct, sm2.NewPlainDecrypterOpts(sm2.C1C3C2))
-		}},
+		}, func() *sm2.DecrypterOpts { return sm2.NewPlainDecrypterOpts(sm2.C1C3C2) }},
 	{"PrivateKey.Decrypt/plain-C1C2C3", []enc.Layout{enc.PlainC1C2C3},
 		func(p *sm2.PrivateKey, ct []byte) ([]byte, error) {
 			return p.Decrypt(decRand, ct, sm2.NewPlainDecrypterOpts(sm2.C1C2C3))
-		}},
+		}, func() *sm2.DecrypterOpts { return sm2.NewPlainDecrypterOpts(sm2.C1C2C3) }},
 	{"PrivateKey.Decrypt/ASN1", []enc.Layout{enc.ASN1},
-		func(p *sm2.PrivateKey, ct []byte) ([]byte, error) { return p.Decrypt(decRand, ct, sm2.ASN1DecrypterOpts) }},
+		func(p *sm2.PrivateKey, ct []byte) ([]byte, error) {
+			return p.Decrypt(decRand, ct, sm2.ASN1DecrypterOpts)
+		},
+		func() *sm2.DecrypterOpts { return sm2.ASN1DecrypterOpts }},
 }
 
 const (
@@ -385,6 +404,20 @@ func randScalar(r *mon.Rand, n *big.Int) *big.Int {
 }
 
 func b32(v *big.Int) []byte { return v.FillBytes(make([]byte, 32)) }
+
+// kBlock is the block of random bytes from which the candidate scalar k is read: as many
+// bytes as the group order has; where the order does not fill its first byte (P-521: 521 bits
+// in 66 bytes) the samplers of FIPS 186-4 B.5.2 in the Go tradition shift the first byte
+// right by the excess bits, so k's first byte is scripted shifted left. A library that
+// derives its scalar otherwise is judged by the reference decryption alone (runRoundTrip).
+func kBlock(cv enc.Curve, k *big.Int) []byte {
+	nb := (cv.N().BitLen() + 7) / 8
+	b := k.FillBytes(make([]byte, nb))
+	if ex := uint(nb*8 - cv.N().BitLen()); ex > 0 {
+		b[0] <<= ex
+	}
+	return b
+}
 
 // script builds the random source for Encrypt: the given 32-byte blocks, then a
 // deterministic tail (so that a library that wants more bytes gets them), with a
